@@ -145,6 +145,14 @@ def _count_leq_one(conds, source):
             if truth and limit is not None and ((e.op == "Le" and limit <= 1) or (e.op == "Lt" and limit <= 2)):
                 if coll in source or source in coll:
                     return True
+        # the same test written the other way round: `len > 1` / `len >= 2` is false on this path
+        if isinstance(e, SymExpr) and e.op in ("Gt", "Ge") and isinstance(e.a, Sym) and e.a.name.startswith("len("):
+            coll = e.a.name[4:-1]
+            limit = e.b if isinstance(e.b, int) else None
+            false_ = (c[1] == 0)
+            if false_ and limit is not None and ((e.op == "Gt" and limit <= 1) or (e.op == "Ge" and limit <= 2)):
+                if coll in source or source in coll:
+                    return True
     return False
 
 
